@@ -243,3 +243,41 @@ def build(eng, tier):
     eng.assumptions_used.add("lock-level analysis: resources are recognised by name (callback_lock, _tensor_write_locks, budget.acquire/release, "
                              "self._condition, *_lock) and calls are resolved by name inside onnx_ir.external_data; work passed to "
                              "executor.submit runs in another thread holding nothing")
+
+
+_build_with_locks = build
+
+
+def build(eng, tier):
+    _build_with_locks(eng, tier)
+    # one byte budget per save: `at most one oversized reservation` and `in_flight <= capacity` (the monitor invariant) bound
+    # the materialised bytes of the WHOLE save only if every writer of the save shares one _ByteBudget built from the caller's
+    # max_in_flight_bytes.  Frame obligation on the real source: no _ByteBudget(...) is created inside a loop or a
+    # comprehension, and its argument is the caller's budget itself (no arithmetic on it).
+    import ast
+    from pyvc import extract
+    tree = ast.parse(open(extract.module_path(ED)).read())
+    parents = {}
+    for n in ast.walk(tree):
+        for c in ast.iter_child_nodes(n):
+            parents[c] = n
+    k = 0
+    for n in ast.walk(tree):
+        if isinstance(n, ast.Call) and isinstance(n.func, ast.Name) and n.func.id == "_ByteBudget":
+            k += 1
+            q, in_loop, fn = n, None, "<module>"
+            while q in parents:
+                q = parents[q]
+                if isinstance(q, (ast.For, ast.While, ast.ListComp, ast.SetComp, ast.DictComp, ast.GeneratorExp)) and in_loop is None:
+                    in_loop = type(q).__name__
+                if isinstance(q, (ast.FunctionDef, ast.AsyncFunctionDef)):
+                    fn = q.name
+                    break
+            arg = ast.unparse(n.args[0]) if n.args else ""
+            arith = any(isinstance(x, ast.BinOp) for a in n.args for x in ast.walk(a))
+            ok = in_loop is None and not arith and "max_in_flight_bytes" in arg
+            eng.add_static(f"one-budget-per-save/{fn}@L{n.lineno}", ok,
+                           f"_ByteBudget({arg}) in {fn}: " + ("inside a " + in_loop + " (one budget per iteration)" if in_loop else
+                                                              "argument is not the caller's max_in_flight_bytes itself" if not ok else "created once from the caller's budget"),
+                           backend="frame analysis (syntactic, onnx_ir.external_data)")
+    eng.add_static("one-budget-per-save/sites", k >= 1, f"{k} construction sites of _ByteBudget found", backend="frame analysis (syntactic, onnx_ir.external_data)")
